@@ -1,4 +1,5 @@
 (* Extraction of the printer, the well-formedness checks and the parser for C09 (ExtrOcamlBasic only). *)
-From MptV Require Import C08.ParseModel C08.PrintModel.
+From MptV Require Import C08.ParseModel C08.PrintModel C08.MetaModel.
 Require Import ExtrOcamlBasic.
-Extraction "c09_model.ml" print wf_items parse_tree abs_items norm_tree style_fmt parse_accept allow_init.
+Extraction "c09_model.ml" print wf_items parse_tree abs_items norm_tree style_fmt parse_accept allow_init allow_variant
+  meta_run spec_run.
